@@ -96,6 +96,7 @@ def parse_vspec(path, rel):
     section = None
     buf = []
     rawbuf = None
+    rawprops = []
 
     def flush():
         nonlocal buf, section
@@ -124,7 +125,7 @@ def parse_vspec(path, rel):
         st = line.strip()
         if rawbuf is not None:
             if st == '@end':
-                raws.append(('%s:%d' % (rel, rawstart), '\n'.join(rawbuf) + '\n'))
+                raws.append(('%s:%d' % (rel, rawstart), '\n'.join(rawbuf) + '\n', rawprops))
                 rawbuf = None
             else:
                 rawbuf.append(line)
@@ -137,6 +138,7 @@ def parse_vspec(path, rel):
                 flush()
                 rawbuf = []
                 rawstart = ln
+                rawprops = arg.split()
                 continue
             if d in ('@fn', '@trait', '@impl'):
                 flush()
@@ -590,8 +592,11 @@ class Generator:
         out.gen(HEADER, 'header')
         out.gen('// ---- contracts/prelude.rs ----\n', 'prelude')
         out.gen(self.prelude if self.prelude.endswith('\n') else self.prelude + '\n', 'prelude')
-        for origin, text in self.raws:
+        for origin, text, rprops in self.raws:
             out.gen('// ---- raw %s ----\n' % origin, 'raw')
+            if rprops and unit is not None and not (set(rprops) & set(unit)):
+                # lemmas of other properties: assumed in this unit (proved in the units that own them and in the thorough tier)
+                text = re.sub(r'(?m)^(\s*)(pub\s+)?proof\s+fn\b', lambda mm: mm.group(1) + '#[verifier::external_body] ' + (mm.group(2) or '') + 'proof fn', text)
             out.gen(text, 'raw:' + origin)
         for rel in SRC_ORDER:
             out.gen('\n// ======== src/%s ========\n' % rel, 'banner')
